@@ -4,7 +4,7 @@ depends on (a model/implementation disagreement whose first differing line is ou
 counted against this property), assumptions recorded in the evidence."""
 
 SIZES = {
-    'quick': {'kernel': 20000, 'hist': 160, 'len': 40},
+    'quick': {'kernel': 20000, 'hist': 320, 'len': 48},
     'thorough': {'kernel': 400000, 'hist': 4000, 'len': 60},
 }
 
